@@ -38,6 +38,38 @@ def pick(cases, limit, seed):
     return keyed[:limit]
 
 
+def _sectioned(r, cut):
+    """build the converted form again in two parts through the builder's include mechanism and compare actions / instance values"""
+    import copy
+
+    from harness import project
+    from pyxform.builder import create_survey
+
+    ev = {"ev": "sectioned", "status": "ok", "same_actions": False, "same_values": False, "cut": 0}
+    try:
+        pyx = copy.deepcopy(r._pyxform)
+        kids = pyx["children"]
+        k = 1 + cut % max(1, len(kids) - 1) if len(kids) > 1 else 0
+        ev["cut"] = k
+        main = dict(pyx, children=kids[:k] + [{"type": "include", "name": "part2"}])
+        sec = {"type": "survey", "name": "part2", "children": kids[k:]}
+        s = create_survey(name_of_main_section=pyx["name"], sections={pyx["name"]: main, "part2": sec}, id_string=pyx.get("id_string"), title=pyx.get("title"))
+        x2 = s.to_xml(validate=False, pretty_print=False)
+
+        def facts(x):
+            root = project.parse(x)
+            acts = sorted(json.dumps(a, sort_keys=True) for a in project.all_setvalues(root))
+            vals = sorted((tuple(n["p"]), n["tmpl"], n.get("text") or "") for n in project.instance_preorder(root))
+            return acts, vals
+
+        a1, v1 = facts(r.xform)
+        a2, v2 = facts(x2)
+        ev.update(same_actions=a1 == a2, same_values=v1 == v2)
+    except Exception as e:  # noqa: BLE001
+        ev["status"] = f"{type(e).__name__}: {e}"[:200]
+    return ev
+
+
 def _run_form(job):
     shapes, seed, feat, fmt, kwargs = job.get("shapes"), job.get("seed", 0), job.get("feat", []), job.get("fmt", "dict"), job.get("kwargs") or {}
     if "wb" in job:
@@ -49,9 +81,11 @@ def _run_form(job):
         info = form.info
     inp, kw = render.render(wb, fmt)
     kw.update(kwargs)
-    res = conv.convert_case({"input": inp, "kwargs": kw, "events": True})
+    res = conv.convert_case({"input": inp, "kwargs": kw, "events": True, "post": _sectioned if job.get("sectioned") is not None else None, "post_arg": job.get("sectioned")})
     cfg = rowtrace.wb_cfg(wb, form_name=kwargs.get("form_name"))
     trace, frag = rowtrace.build(res, cfg, with_refs=bool(job.get("refs")), src=job.get("src"))
+    if res.get("post") is not None and res["status"] == "ok":
+        trace.insert(len(trace) - 1, res.pop("post"))     # (the end event stays last)
     return {"shapes": shapes, "seed": seed, "feat": sorted(feat), "fmt": fmt, "wb": wb, "res": {k: v for k, v in res.items() if k != "events"},
             "trace": trace, "frag": frag, "info": info, "tag": job.get("tag")}
 
